@@ -197,14 +197,16 @@ class GradientMethod(Alg):
             if self.proxg is not None:
                 backend.copyto(self.x, self.proxg(self.alpha, self.x))
 
+            self.resid = xp.linalg.norm(self.x - x_old).item() / self.alpha
             if self.accelerate:
                 t_old = self.t
                 self.t = (1 + (1 + 4 * t_old**2) ** 0.5) / 2
-                backend.copyto(
-                    self.z, self.x + ((t_old - 1) / self.t) * (self.x - x_old)
-                )
-
-            self.resid = xp.linalg.norm(self.x - x_old).item() / self.alpha
+                z = self.x + ((t_old - 1) / self.t) * (self.x - x_old)
+                # The state is (x, z): it is a fixed point only if neither
+                # moves (x can stall, e.g. clipped by a box, while z != x).
+                resid_z = xp.linalg.norm(z - self.z).item() / self.alpha
+                self.resid = (self.resid**2 + resid_z**2) ** 0.5
+                backend.copyto(self.z, z)
 
     def _done(self):
         return (self.iter >= self.max_iter) or self.resid <= self.tol
